@@ -290,6 +290,11 @@ func runSysFault(x *X) {
 			// transparent retry on a stale pooled connection), not at some later, larger timeout
 			x.Violate("C03", "C03/backend-timeout-not-applied{hang-headers}", "exchange %d: the backend never sent a response head; the request ended after %v although backend_dial=%ds and backend_read=%ds (allowed here: %v)", ex.id, d, to.BackendDial, to.BackendRead, hb)
 		}
+		// a backend that took the request and never sent a response head has not answered: however the
+		// request ends (backend_read, the handler timeout), the client is not told it succeeded
+		if faults[i] == "hang-headers" && ex.got != nil && ex.got.err == "" && ex.got.status/100 == 2 {
+			x.Violate("C03", "C03/success-without-a-backend-answer{hang-headers}", "exchange %d: the backend never sent a response head; after %v the client received %d with %d body bytes (backend_read=%ds, handler=%ds)", ex.id, ex.endedAt-ex.startedAt, ex.got.status, len(ex.got.body), to.BackendRead, to.Handler)
+		}
 		// C01: a response the backend did not finish (it closed the connection before the declared
 		// length or the last chunk, or stalled until Helios gave up on it) is not presented to the
 		// client as a complete one: the client must be able to tell, whatever the framing
